@@ -261,6 +261,26 @@ def k_cache(ctx: Ctx):
             nq = n if rng.random() < 0.8 else rng.randint(1, 5)
             steps.append(("req", i, nq, pool[i]))
         hist.append((n, pool, steps))
+    # hash-twin histories: the same labels with coefficient -1, then -2 (equal hashes in CPython), once by mutating the
+    # operator in place and once with a fresh operator object — a content-keyed cache must tell them apart
+    for _ in range(ctx.n(6, 40)):
+        n = rng.randint(1, 4)
+        labels = []
+        while len(labels) < rng.randint(1, 3):
+            l = rand_label(rng, n)
+            if l not in labels:
+                labels.append(l)
+        j = rng.randrange(len(labels))
+        first, second = HASH_TWINS if rng.random() < 0.5 else HASH_TWINS[::-1]
+        t1 = [(l, first if k == j else rand_coef(rng, allow_zero=False)) for k, l in enumerate(labels)]
+        t2 = [(l, second if k == j else c) for k, (l, c) in enumerate(t1)]
+        if rng.random() < 0.5:
+            pool = [("O", t2)]
+            steps = [("req", 0, n, ("O", t1)), ("set", 0, t2[j]), ("req", 0, n, ("O", t2))]
+        else:
+            pool = [("O", t1), ("O", t2)]
+            steps = [("req", 0, n, ("O", t1)), ("req", 1, n, ("O", t2)), ("req", 0, n, ("O", t1))]
+        hist.append((n, pool, steps))
     for bname, mod, termf in backends:
         reqs, reals = [], []
         for n, pool0, steps in hist:
